@@ -1,5 +1,5 @@
 // wb.cpp — WHITE-BOX correspondence harness for the literal (L3) models: built with
-// -DWB_PRIVATE_PUBLIC -DKIND=<0|1|2|3> from /repo/inc as it is now; after every operation it
+// -DWB_PRIVATE_PUBLIC -DKIND=<0|1|2|3|5|6|7|8|9> from /repo/inc as it is now; after every operation it
 // dumps the container's real internal structures in a canonical form (list order, partition
 // position, counters, each in-use element's stored back-pointers, the index), which the driver
 // compares with the state of the extracted literal Coq machine (RrLit / LruLit / FifoLit).
@@ -10,6 +10,9 @@
 #include "common.hpp"
 
 using C = typename Sel<int64_t, thread_safe::no>::type;
+
+static std::vector<std::pair<const void*, long>> g_node_ids; // ut_map / ut_set: live list node -> creation number
+static long                                      g_next_id = 0;
 
 static std::string dump(C& c, std::vector<const void*>& nodes)
 {
@@ -104,6 +107,131 @@ static std::string dump(C& c, std::vector<const void*>& nodes)
             o << (first ? "" : ",") << id(&*it) << ":" << it->m_keyed_position.value()->first << ":" << it->m_value;
             first = false;
         }
+#elif KIND == 5
+    auto id = [&](const void* p) { return std::find(nodes.begin(), nodes.end(), p) - nodes.begin(); };
+    o << " used=" << c.m_used_size << " list=";
+    bool first = true;
+    for (auto it = c.m_dynamic_age_list.begin(); it != c.m_dynamic_age_list.end(); ++it)
+    {
+        o << (first ? "" : ",") << id(&*it);
+        first = false;
+    }
+    o << " end=";
+    if (c.m_open_list_end == c.m_dynamic_age_list.end())
+        o << "E";
+    else
+        o << id(&*c.m_open_list_end);
+    std::map<Key, long> idx;
+    for (auto& [k, it] : c.m_keyed_elements)
+        idx[k] = id(&*it);
+    o << " index=";
+    first = true;
+    for (auto& [k, s] : idx)
+    {
+        o << (first ? "" : ",") << k << ":" << s;
+        first = false;
+    }
+    o << " mm=";
+    first = true;
+    for (auto& [cnt, it] : c.m_lfu_list)
+    {
+        o << (first ? "" : ",") << cnt << ":" << id(&*it);
+        first = false;
+    }
+    o << " cells=";
+    first = true;
+    for (auto it = c.m_dynamic_age_list.begin(); it != c.m_open_list_end; ++it)
+    {
+        o << (first ? "" : ",") << id(&*it) << ":" << it->m_keyed_position->first << ":" << id(&*(it->m_lfu_position->second)) << ":"
+          << it->m_dynamic_age.time_since_epoch().count() << ":" << it->m_value;
+        first = false;
+    }
+#elif KIND == 6 || KIND == 7
+    o << " used=" << c.m_used_size;
+#if KIND == 7
+    o << " ttl=" << c.m_ttl.count();
+#endif
+    o << " list=";
+    bool first = true;
+    for (auto it = c.m_lru_list.begin(); it != c.m_lru_list.end(); ++it)
+    {
+        o << (first ? "" : ",") << *it;
+        first = false;
+    }
+    o << " end=";
+    if (c.m_lru_end == c.m_lru_list.end())
+        o << "E";
+    else
+        o << *c.m_lru_end;
+    std::map<Key, size_t> idx(c.m_keyed_elements.begin(), c.m_keyed_elements.end());
+    o << " index=";
+    first = true;
+    for (auto& [k, s] : idx)
+    {
+        o << (first ? "" : ",") << k << ":" << s;
+        first = false;
+    }
+    o << " ord=";
+    first = true;
+#if KIND == 6
+    for (auto& [tp, s] : c.m_ttl_list)
+    {
+        o << (first ? "" : ",") << tp.time_since_epoch().count() << ":" << s;
+        first = false;
+    }
+#else
+    for (auto s : c.m_ttl_list)
+    {
+        o << (first ? "" : ",") << 0 << ":" << s;
+        first = false;
+    }
+#endif
+    o << " elems=";
+    first = true;
+    for (auto& [k, s] : idx)
+    {
+        auto& e = c.m_elements[s];
+#if KIND == 6
+        size_t tslot = e.m_ttl_position->second;
+#else
+        size_t tslot = *e.m_ttl_position;
+#endif
+        o << (first ? "" : ",") << s << ":" << e.m_keyed_position->first << ":" << e.m_expire_time.time_since_epoch().count() << ":"
+          << *e.m_lru_position << ":" << tslot << ":" << e.m_value;
+        first = false;
+    }
+#elif KIND == 8 || KIND == 9
+    // list nodes are created and destroyed dynamically (and addresses are re-used): name each node by its
+    // current position in the list
+    std::vector<const void*> present;
+    for (auto it = c.m_ttl_list.begin(); it != c.m_ttl_list.end(); ++it)
+        present.push_back(&*it);
+    auto id = [&](const void* p) { return static_cast<long>(std::find(present.begin(), present.end(), p) - present.begin()); };
+    o << " size=" << c.m_keyed_elements.size() << " list=";
+    bool first = true;
+    for (auto it = c.m_ttl_list.begin(); it != c.m_ttl_list.end(); ++it)
+    {
+        o << (first ? "" : ",") << id(&*it);
+        first = false;
+    }
+    o << " map=";
+    first = true;
+    for (auto& [k, ke] : c.m_keyed_elements)
+    {
+#if KIND == 8
+        o << (first ? "" : ",") << k << ":" << ke.m_value << ":" << id(&*ke.m_ttl_position);
+#else
+        o << (first ? "" : ",") << k << ":" << 1 << ":" << id(&*ke.m_ttl_position);
+#endif
+        first = false;
+    }
+    o << " nodes=";
+    first = true;
+    for (auto it = c.m_ttl_list.begin(); it != c.m_ttl_list.end(); ++it)
+    {
+        o << (first ? "" : ",") << id(&*it) << ":" << it->m_expire_time.time_since_epoch().count() << ":" << it->m_keyed_elements_position->first;
+        first = false;
+    }
 #endif
     return o.str();
 }
@@ -147,7 +275,12 @@ int main(int argc, char** argv)
 #if KIND == 2
             for (auto it = c->m_fifo_list.begin(); it != c->m_fifo_list.end(); ++it)
                 nodes.push_back(&*it);
+#elif KIND == 5
+            for (auto it = c->m_dynamic_age_list.begin(); it != c->m_dynamic_age_list.end(); ++it)
+                nodes.push_back(&*it);
 #endif
+            g_node_ids.clear();
+            g_next_id = 0;
             for (const Op& o : ops)
             {
                 std::cout << apply<C, int64_t>(*c, o) << "\n";
